@@ -264,6 +264,13 @@ fn write_entry(
 
     let mut path_2_offset = 0;
     if let Some(path_2) = &entry.path_2 {
+        if file_format.offset_to_path_2_offset().is_none() {
+            // there is no header field that could point to it
+            return Err(emitter.emit(error!(
+                message("'path_2' is not supported by this version of the ANM format"),
+                primary(path_2, "cannot be stored in the file"),
+            )));
+        }
         path_2_offset = w.pos()? - entry_pos;
         w.write_cstring(&Encoded::encode(path_2, DEFAULT_ENCODING).map_err(|e| emitter.emit(e))?, 16)?;
     };
